@@ -45,6 +45,17 @@ def fix_coverage(res):
     return res
 
 
+def guard(ctx, cond, msg):
+    """Vacuity / self-test guard: a machinery failure (exit 2) -- unless the run already found violations, in
+    which case the broken code under test may be what prevents the demonstration; then it is only recorded."""
+    if cond:
+        return
+    if ctx.violations:
+        ctx.coverage.setdefault("guards_not_demonstrable", []).append(msg)
+        return
+    raise RuntimeError(msg)
+
+
 def require_actions(res, names):
     for n in names:
         if res.coverage.get(n, [0, 0])[0] == 0:
@@ -611,20 +622,23 @@ def trace_direction(ctx):
     nrej = sum(1 for r in records if r["ev"] == "seq" and r["acc"] and not r["acc"][-1])
     ndis = sum(1 for r in records if r["ev"] == "vs" and r["dab"])
     nover = sum(1 for r in records if r["ev"] == "vs" and not r["dab"])
-    if min(nseq_judged, nacc, nrej, ndis, nover) == 0:
-        raise RuntimeError("vacuity in recorded traces: judged=%d accepted=%d rejected=%d disjoint=%d overlapping=%d" % (nseq_judged, nacc, nrej, ndis, nover))
+    guard(ctx, min(nseq_judged, nacc, nrej, ndis, nover) > 0, "vacuity in recorded traces: judged=%d accepted=%d rejected=%d disjoint=%d overlapping=%d" % (nseq_judged, nacc, nrej, ndis, nover))
     # binding self-test: corrupt one recorded field per event kind -> exactly that line is rejected
-    probe = []
-    for kind in ("vs", "seq", "csv"):
-        r = dict(next(x for x in sendable if x["ev"] == kind and x.get("exc", "none") == "none" and (kind != "seq" or (x["acc"] and all(len(c) > 0 for c in x["tab"]) and len(set(k for k, _ in x["seq"])) == len(x["seq"])))))
-        probe.append(r)
-    probe[0] = dict(probe[0], dab=not probe[0]["dab"])
-    probe[1] = dict(probe[1], acc=[not probe[1]["acc"][0]] + probe[1]["acc"][1:])
-    probe[2] = dict(probe[2], table=probe[2]["table"] + [[["k9", False, [0]]]])
-    pbad, _ = trace.validate("ConstraintTrace", probe)
-    got = sorted((b["line"], b["clause"].split("(")[0], b["alarm"]) for b in pbad)
-    if got != [(1, "Disjoint", True), (2, "Incremental", True), (3, "CsvCells", True)]:
-        raise RuntimeError("trace binding self-test failed: corrupted fields judged as %r" % (got,))
+    try:
+        probe = []
+        for kind in ("vs", "seq", "csv"):
+            r = dict(next(x for x in sendable if x["ev"] == kind and x.get("exc", "none") == "none" and (kind != "seq" or (x["acc"] and all(len(c) > 0 for c in x["tab"]) and len(set(k for k, _ in x["seq"])) == len(x["seq"])))))
+            probe.append(r)
+        probe[0] = dict(probe[0], dab=not probe[0]["dab"])
+        probe[1] = dict(probe[1], acc=[not probe[1]["acc"][0]] + probe[1]["acc"][1:])
+        probe[2] = dict(probe[2], table=probe[2]["table"] + [[["k9", False, [0]]]])
+        pbad, _ = trace.validate("ConstraintTrace", probe)
+        got = sorted((b["line"], b["clause"].split("(")[0], b["alarm"]) for b in pbad)
+        want = [(1, "Disjoint", True), (2, "Incremental", True), (3, "CsvCells", True)]
+        okst = all(w in got for w in want)
+    except StopIteration:
+        got, okst = "no suitable recorded event", False
+    guard(ctx, okst, "trace binding self-test failed: corrupted fields judged as %r" % (got,))
     stats = {"judged_sequences": nseq_judged, "fully_accepted_sequences": nacc, "rejected_sequences": nrej, "disjoint_pairs": ndis, "overlapping_pairs": nover}
     return len(records), dis, stats, [sendable[0], sendable[counts["vs"]], sendable[counts["vs"] + counts["seq"]]]
 
@@ -719,8 +733,7 @@ def run(ctx):
     res_c1, out_c1 = g_finish(ctx, R[2], cs1, "ConstraintCsv exhaustive (cells)", csv_block, lambda b: b, ["Read"])
     res_c2, out_c2 = g_finish(ctx, R[3], cs2, "ConstraintCsv exhaustive (rows)", csv_block, lambda b: b, ["Read"])
     kinds = set(r["sample"]["hist"][-1]["kind"] for r in out_c1 + out_c2)
-    if kinds != {"data", "comment", "blank"}:
-        raise RuntimeError("vacuity: CSV row kinds replayed: %r" % (kinds,))
+    guard(ctx, kinds == {"data", "comment", "blank"}, "vacuity: CSV row kinds replayed: %r" % (kinds,))
     extra_vs = []
     if not ctx.quick:
         _, o2 = g_finish(ctx, R[4], c2, "ValueSets exhaustive (deeper)", vs_block, lambda b: (b, 4), VS_ACT)
@@ -737,11 +750,9 @@ def run(ctx):
     ntr, tdis, tstats, tsamples = trace_direction(ctx)
 
     hit = selftest_binding([r["sample"] for r in out_vs])
-    if hit == 0:
-        raise RuntimeError("binding self-test failed: an is_disjoint that ignores the other set's ranges was not detected")
+    guard(ctx, hit > 0, "binding self-test failed: an is_disjoint that ignores the other set's ranges was not detected")
     njudged = sum(1 for r in out_tb if r.get("judged"))
-    if njudged == 0 or not any(r["sample"]["obs"]["acc"] for r in out_tb if r.get("judged")) or all(r["sample"]["obs"]["acc"] for r in out_tb if r.get("judged")):
-        raise RuntimeError("vacuity: the table theorems were never exercised with both outcomes")
+    guard(ctx, njudged > 0 and any(r["sample"]["obs"]["acc"] for r in out_tb if r.get("judged")) and not all(r["sample"]["obs"]["acc"] for r in out_tb if r.get("judged")), "vacuity: the table theorems were never exercised with both outcomes")
     allg = out_vs + extra_vs + out_tb + out_c1 + out_c2
     ctx.coverage.update(
         {
